@@ -16,8 +16,10 @@ import (
 	"os"
 	"strconv"
 	"strings"
+	"sync"
 
 	"github.com/ohler55/slip"
+	"github.com/ohler55/slip/pkg/gi"
 
 	"verifharness/internal/h"
 )
@@ -39,6 +41,7 @@ type gen struct {
 	maker  string // name of a defined function that returns a closure counting up from its argument
 	ctl    bool   // profile: generate non-local exits, cleanups, errors
 	inline bool   // profile "defs": also inline lambda calls ((lambda (p) ...) arg)
+	rctr   int    // resources (mutexes, files) made so far in this program
 	noExit int    // > 0 while inside a position from which an exit is not generated (cleanup forms, binding init forms)
 }
 type fdef struct {
@@ -50,6 +53,53 @@ func I(n int) N               { return N{"k": "int", "v": n} }
 func lit(v N) N               { return N{"k": "lit", "v": v} }
 func nilV() N                 { return N{"k": "nil"} }
 func (g *gen) fresh() string  { g.vctr++; return fmt.Sprintf("v%d", g.vctr) }
+func sym(n string) N          { return N{"k": "sym", "v": n} }
+func str(x string) N          { return N{"k": "str", "v": x} }
+func lst(es ...any) N {
+	if len(es) == 0 {
+		return nilV()
+	}
+	return N{"k": "list", "v": es}
+}
+
+// datum is a piece of data to be quoted: symbols (also names of functions and special forms, a list that looks like a
+// call must not be evaluated), strings, keywords, integers, nil, nested lists and quote forms inside
+func (g *gen) datum(d int) N {
+	switch ch := g.rng.Intn(10); {
+	case ch < 2:
+		return I(g.rng.Intn(10))
+	case ch < 4:
+		return sym([]string{"a", "b", "foo", "vmark", "setq", "x", "error", "quote", ":k"}[g.rng.Intn(9)])
+	case ch < 5:
+		return str([]string{"s", "two words", ""}[g.rng.Intn(3)])
+	case ch < 6:
+		return nilV()
+	case ch < 7 && d > 0:
+		return lst(sym("quote"), g.datum(d-1)) // 'x inside quoted data is the list (quote x)
+	case d > 0:
+		es := []any{}
+		if g.one(3) {
+			es = append(es, sym([]string{"vmark", "setq", "error", "return-from", "go"}[g.rng.Intn(5)]))
+		}
+		for i := g.rng.Intn(4); i > 0; i-- {
+			es = append(es, g.datum(d-1))
+		}
+		return lst(es...)
+	}
+	return sym("a")
+}
+
+// quoted renders a literal datum as 'd or (quote d); self-evaluating data sometimes bare
+func (g *gen) quoted(v N) N {
+	n := N{"k": "lit", "v": v, "q": 1 + g.rng.Intn(2)}
+	if k := v["k"]; (k == "int" || k == "str" || k == "nil") && g.one(2) {
+		n["q"] = 0
+	}
+	if v["k"] == "sym" && strings.HasPrefix(v["v"].(string), ":") && g.one(2) {
+		n["q"] = 0 // a keyword evaluates to itself
+	}
+	return n
+}
 func (g *gen) m(e N) N        { g.mark++; return N{"k": "mark", "id": g.mark, "e": e} }
 func (g *gen) one(n int) bool { return g.rng.Intn(n) == 0 }
 
@@ -77,10 +127,26 @@ func (g *gen) exitForm(d int, vars []string) N {
 		}
 	case 3:
 		if g.one(3) {
-			return N{"k": "error", "class": "error"}
+			return g.errorForm()
 		}
 	}
 	return nil
+}
+
+// errorForm signals a condition of one of several classes: by (error ...), by dividing by zero, by a function
+// applied to the wrong kind of argument and by a variable that is not bound
+func (g *gen) errorForm() N {
+	switch g.rng.Intn(6) {
+	case 0:
+		return N{"k": "error", "class": "division-by-zero"}
+	case 1:
+		return N{"k": "car", "a": lit(I(7))} // type-error
+	case 2:
+		return N{"k": "add", "a": lit(I(1)), "b": g.quoted(sym("a"))} // type-error
+	case 3:
+		return N{"k": "var", "n": "not-bound-anywhere"} // unbound-variable
+	}
+	return N{"k": "error", "class": "error"}
 }
 
 // body generates a sequence of 1..3 forms in body position (the last one gives the value)
@@ -89,6 +155,10 @@ func (g *gen) body(d int, vars []string) []any {
 	for i := g.rng.Intn(3); i >= 0; i-- {
 		if x := g.exitForm(d, vars); x != nil && g.one(4) {
 			es = append(es, x)
+			continue
+		}
+		if i > 0 && g.one(6) {
+			es = append(es, g.m(g.quoted(g.datum(2)))) // a quoted datum in a position whose value is dropped
 			continue
 		}
 		es = append(es, g.num(d-1, vars))
@@ -145,8 +215,31 @@ func (g *gen) num(d int, vars []string) N {
 			}
 			cs = append(cs, N{"keys": keys, "dflt": false, "body": g.body(d-1, vars)})
 		}
+		if g.one(4) {
+			// (typecase e (type body) ...) / etypecase on an integer, a string, a symbol, nil or a list
+			tcs := []any{}
+			types := []string{"fixnum", "string", "null", "symbol", "list", "integer", "number"}
+			for i, n := 0, 1+g.rng.Intn(3); i < n; i++ {
+				tcs = append(tcs, N{"type": types[g.rng.Intn(len(types))], "body": g.body(d-1, vars)})
+			}
+			strict := g.ctl && g.one(3)
+			if !strict && g.one(2) {
+				tcs = append(tcs, N{"type": "t", "body": g.body(d-1, vars)})
+			}
+			// (no list as the key: slip's typecase, pinned by its suite, takes a list key as "any element is of the type")
+			keys := []N{I(g.rng.Intn(4)), str("s"), sym("foo"), nilV()}
+			tc := N{"k": "tcase", "strict": strict, "e": g.m(g.quoted(keys[g.rng.Intn(len(keys))])), "cs": tcs}
+			if strict {
+				return g.orZero(N{"k": "ignerr", "body": []any{tc}})
+			}
+			return g.orZero(tc)
+		}
+		if g.ctl && g.one(4) {
+			// (ecase e ...) signals a type-error when no clause matches
+			return g.orZero(N{"k": "ignerr", "body": []any{N{"k": "case", "strict": true, "e": g.m(N{"k": "lit", "v": I(g.rng.Intn(5))}), "cs": cs}}})
+		}
 		cs = append(cs, N{"keys": []any{}, "dflt": true, "body": g.body(d-1, vars)})
-		return N{"k": "case", "e": g.m(N{"k": "lit", "v": I(g.rng.Intn(4))}), "cs": cs}
+		return N{"k": "case", "strict": false, "e": g.m(N{"k": "lit", "v": I(g.rng.Intn(4))}), "cs": cs}
 	case ch < 12:
 		return g.let(d, vars, g.one(2))
 	case ch < 13:
@@ -197,10 +290,29 @@ func (g *gen) num(d int, vars []string) N {
 			if g.one(2) {
 				vs = append(vs, g.num(d-1, vars))
 			}
-			return N{"k": "values", "es": vs}
+			var vals N = N{"k": "values", "es": vs}
+			if g.one(4) {
+				vals = N{"k": "trunc", "a": g.num(d-1, vars), "b": lit(I(1 + g.rng.Intn(3)))} // (truncate a b): quotient and remainder
+			}
+			return g.through(vals, d, vars)
 		})
 		bodyVars := append(append([]string{}, vars...), a)
 		return N{"k": "mvb", "vars": []any{a, b}, "e": vf, "body": g.body(d-1, bodyVars)}
+	case ch < 23 && g.one(3):
+		return g.resource(d, vars)
+	case ch < 23 && g.one(3) && len(vars) > 0:
+		// (setq a e1 b e2): assignments in sequence, the value is the last one
+		ps := []any{}
+		for i := 1 + g.rng.Intn(3); i > 0; i-- {
+			ps = append(ps, N{"n": vars[g.rng.Intn(len(vars))], "e": g.noex(func() N { return g.num(d-1, vars) })})
+		}
+		return g.m(N{"k": "setqs", "ps": ps})
+	case ch < 23 && g.one(2):
+		// (car '(3 x "s")) / (car (cdr '(a 4 b))): elements of quoted data
+		if g.one(2) {
+			return g.m(N{"k": "car", "a": g.quoted(lst(I(g.rng.Intn(10)), g.datum(1), g.datum(1)))})
+		}
+		return g.m(N{"k": "car", "a": N{"k": "cdr", "a": g.quoted(lst(g.datum(1), I(g.rng.Intn(10)), g.datum(1)))}})
 	case ch < 23:
 		// (car (cdr (list ...))) and quoted data
 		es := []any{}
@@ -214,6 +326,59 @@ func (g *gen) num(d int, vars []string) N {
 		}
 		return g.let(d, vars, g.one(2))
 	}
+}
+
+// through wraps a form in forms that hand on all its values (or, prog1 and a marker call, only the first)
+func (g *gen) through(e N, d int, vars []string) N {
+	for i := g.rng.Intn(3); i > 0; i-- {
+		switch g.rng.Intn(12) {
+		case 0:
+			e = N{"k": "progn", "es": []any{g.num(d-2, vars), e}}
+		case 1:
+			e = N{"k": "let", "bs": []any{N{"n": "x", "e": g.num(d-2, vars)}}, "body": []any{e}}
+		case 2:
+			e = N{"k": "if", "c": g.m(lit(N{"k": "t"})), "a": e, "b": lit(I(0))}
+		case 3:
+			g.bctr++
+			name := fmt.Sprintf("b%d", g.bctr)
+			e = N{"k": "block", "name": name, "body": []any{N{"k": "retfrom", "name": name, "e": e}, g.m(lit(I(9)))}}
+		case 4:
+			e = N{"k": "protect", "e": e, "cleanup": []any{g.m(lit(I(8)))}}
+		case 5:
+			e = N{"k": "fcall", "f": N{"k": "lam", "ps": []any{}, "body": []any{e}}, "args": []any{}, "spread": false}
+		case 6:
+			e = N{"k": "cond", "cs": []any{N{"c": g.m(lit(nilV())), "body": []any{lit(I(1))}}, N{"c": lit(N{"k": "t"}), "body": []any{e}}}}
+		case 7:
+			e = N{"k": "prog1", "es": []any{e, g.num(d-2, vars)}} // only the first value
+		case 8:
+			e = N{"k": "when", "c": g.m(lit(N{"k": "t"})), "body": []any{e}}
+		case 9:
+			e = N{"k": "and", "es": []any{g.m(lit(N{"k": "t"})), e}}
+		case 10:
+			e = N{"k": "or", "es": []any{g.m(lit(nilV())), e}}
+		case 11:
+			e = N{"k": "letx", "bs": []any{}, "body": []any{e}}
+		}
+	}
+	return e
+}
+
+// resource: a mutex held by with-mutex-lock or a file opened by with-open-file around a body; (vheld r) is observed
+// inside and, by the cleanup form of an enclosing unwind-protect, after control has left whichever way
+func (g *gen) resource(d int, vars []string) N {
+	g.rctr++
+	if g.one(2) {
+		mx := fmt.Sprintf("mx%d", g.rctr)
+		held := func() N { return g.m(N{"k": "held", "e": N{"k": "var", "n": mx}}) }
+		body := append([]any{held()}, g.body(d-1, vars)...)
+		return N{"k": "let", "bs": []any{N{"n": mx, "e": N{"k": "newres"}}}, "body": []any{
+			N{"k": "protect", "e": N{"k": "withlock", "e": N{"k": "var", "n": mx}, "body": body}, "cleanup": []any{held()}}}}
+	}
+	keep, fs := fmt.Sprintf("keep%d", g.rctr), fmt.Sprintf("fs%d", g.rctr)
+	held := func() N { return g.m(N{"k": "held", "e": N{"k": "var", "n": keep}}) }
+	body := append([]any{N{"k": "setq", "n": keep, "e": N{"k": "var", "n": fs}}, held()}, g.body(d-1, vars)...)
+	return N{"k": "let", "bs": []any{N{"n": keep, "e": lit(nilV()), "bare": g.rng.Intn(3)}}, "body": []any{
+		N{"k": "protect", "e": N{"k": "withfile", "var": fs, "body": body}, "cleanup": []any{held()}}}}
 }
 
 func (g *gen) noex(f func() N) N {
@@ -427,6 +592,10 @@ func (g *gen) let(d int, vars []string, star bool) N {
 		sc := scope
 		bs = append(bs, N{"n": name, "e": g.noex(func() N { return g.num(d-1, sc) })})
 		nv = append(nv, name)
+		if i == n-1 && g.one(6) {
+			// a variable without an initial value, written x or (x), is nil
+			bs = append(bs, N{"n": "unset", "e": lit(nilV()), "bare": 1 + g.rng.Intn(2)})
+		}
 	}
 	k := "let"
 	if star {
@@ -444,6 +613,16 @@ func renderVal(v N) string {
 		return "nil"
 	case "t":
 		return "t"
+	case "sym":
+		return v["v"].(string)
+	case "str":
+		return strconv.Quote(v["v"].(string))
+	case "list":
+		var parts []string
+		for _, e := range v["v"].([]any) {
+			parts = append(parts, renderVal(e.(N)))
+		}
+		return "(" + strings.Join(parts, " ") + ")"
 	}
 	panic(fmt.Sprint("renderVal ", v))
 }
@@ -451,7 +630,44 @@ func renderVal(v N) string {
 func render(n N) string {
 	switch n["k"] {
 	case "lit":
+		switch q, _ := n["q"].(int); q {
+		case 1:
+			return "'" + renderVal(n["v"].(N))
+		case 2:
+			return "(quote " + renderVal(n["v"].(N)) + ")"
+		}
 		return renderVal(n["v"].(N))
+	case "setqs":
+		var b strings.Builder
+		b.WriteString("(setq")
+		for _, p := range n["ps"].([]any) {
+			pn := p.(N)
+			fmt.Fprintf(&b, " %s %s", pn["n"], render(pn["e"].(N)))
+		}
+		return b.String() + ")"
+	case "trunc":
+		return fmt.Sprintf("(truncate %s %s)", render(n["a"].(N)), render(n["b"].(N)))
+	case "tcase":
+		var b strings.Builder
+		name := "typecase"
+		if n["strict"].(bool) {
+			name = "etypecase"
+		}
+		fmt.Fprintf(&b, "(%s %s", name, render(n["e"].(N)))
+		for _, c := range n["cs"].([]any) {
+			cn := c.(N)
+			fmt.Fprintf(&b, " (%s%s)", cn["type"], rlist(cn["body"].([]any)))
+		}
+		return b.String() + ")"
+	case "newres":
+		return "(make-mutex)"
+	case "withlock":
+		return fmt.Sprintf("(with-mutex-lock %s%s)", render(n["e"].(N)), rlist(n["body"].([]any)))
+	case "withfile":
+		return fmt.Sprintf("(with-open-file (%s vheld-file-name :direction :output :if-exists :supersede :if-does-not-exist :create)%s)",
+			n["var"], rlist(n["body"].([]any)))
+	case "held":
+		return fmt.Sprintf("(vheld %s)", render(n["e"].(N)))
 	case "var":
 		return n["n"].(string)
 	case "setq":
@@ -477,7 +693,11 @@ func render(n N) string {
 		return b.String() + ")"
 	case "case":
 		var b strings.Builder
-		fmt.Fprintf(&b, "(case %s", render(n["e"].(N)))
+		if n["strict"].(bool) {
+			fmt.Fprintf(&b, "(ecase %s", render(n["e"].(N)))
+		} else {
+			fmt.Fprintf(&b, "(case %s", render(n["e"].(N)))
+		}
 		for _, c := range n["cs"].([]any) {
 			cn := c.(N)
 			if cn["dflt"].(bool) {
@@ -501,6 +721,14 @@ func render(n N) string {
 		var bs []string
 		for _, b := range n["bs"].([]any) {
 			bn := b.(N)
+			switch bare, _ := bn["bare"].(int); bare {
+			case 1:
+				bs = append(bs, bn["n"].(string))
+				continue
+			case 2:
+				bs = append(bs, fmt.Sprintf("(%s)", bn["n"]))
+				continue
+			}
 			bs = append(bs, fmt.Sprintf("(%s %s)", bn["n"], render(bn["e"].(N))))
 		}
 		return fmt.Sprintf("(%s (%s)%s)", name, strings.Join(bs, " "), rlist(n["body"].([]any)))
@@ -533,6 +761,9 @@ func render(n N) string {
 	case "go":
 		return fmt.Sprintf("(go %s)", n["tag"])
 	case "error":
+		if n["class"] == "division-by-zero" {
+			return "(/ 1 0)"
+		}
 		return `(error "boom")`
 	case "ignerr":
 		return "(ignore-errors" + rlist(n["body"].([]any)) + ")"
@@ -646,6 +877,7 @@ func c01(args []string) {
 		out.Emit(N{"t": cur, "ev": "mark", "id": int(a[0].(slip.Fixnum)), "v": c01Project(a[1])})
 		return a[1]
 	})
+	c01DefineHeld()
 	s := slip.NewScope()
 	h.Lines(func(line []byte) {
 		var st c01Stim
@@ -667,6 +899,27 @@ func c01(args []string) {
 			out.Emit(N{"t": st.ID, "ev": "end", "v": []any{N{"k": "err", "c": o.Class}}, "src": st.Src, "msg": fmt.Sprintf("%.120s", o.Msg)})
 		}
 	})
+}
+
+// c01DefineHeld registers (vheld r): t while the mutex r is held / the stream r is open, and the variable
+// vheld-file-name with a file of this process that with-open-file forms write to
+func c01DefineHeld() {
+	h.Define("vheld", func(s *slip.Scope, a slip.List, depth int) slip.Object {
+		switch r := a[0].(type) {
+		case *gi.Mutex:
+			if (*sync.Mutex)(r).TryLock() {
+				(*sync.Mutex)(r).Unlock()
+				return nil
+			}
+			return slip.True
+		case slip.Stream:
+			if r.IsOpen() {
+				return slip.True
+			}
+		}
+		return nil
+	})
+	slip.CurrentPackage.Set("vheld-file-name", slip.String(fmt.Sprintf("vheld-%d.tmp", os.Getpid())))
 }
 
 func c01Gen(args []string) {
@@ -716,6 +969,48 @@ func c01Gen(args []string) {
 			defsrc = append(defsrc, fmt.Sprintf("(defun %s (%s)%s)", name, strings.Join(ps, " "), rlist(body)))
 			g.funcs = append(g.funcs, fdef{name, ar})
 		}
+		var forced []any // calls every program makes at its start, twice each
+		{
+			// (defun nf (n acc) (if (or (< n 1) (< 4 n)) acc (nf (- n 1) (nf (- n 2) (+ acc 1))))): a call of the function
+			// in an argument of a call of the same function; the same call forms are entered again while an outer
+			// evaluation of them is under way, and the whole thing runs twice
+			g.fctr++
+			name := fmt.Sprintf("nf%s%d-%d", profile[:1], seed, g.fctr)
+			n, acc := g.fresh(), g.fresh()
+			nv, av := N{"k": "var", "n": n}, N{"k": "var", "n": acc}
+			inner := N{"k": "call", "f": name, "args": []any{N{"k": "sub", "a": nv, "b": lit(I(2))}, N{"k": "add", "a": av, "b": lit(I(1))}}}
+			outer := N{"k": "call", "f": name, "args": []any{N{"k": "sub", "a": nv, "b": lit(I(1))}, inner}}
+			body := []any{N{"k": "if", "c": N{"k": "or", "es": []any{N{"k": "lt", "a": nv, "b": lit(I(1))}, N{"k": "lt", "a": lit(I(4)), "b": nv}}},
+				"a": g.m(av), "b": g.m(outer)}}
+			defs = append(defs, N{"name": name, "ps": []any{n, acc}, "body": body})
+			defsrc = append(defsrc, fmt.Sprintf("(defun %s (%s %s)%s)", name, n, acc, rlist(body)))
+			g.funcs = append(g.funcs, fdef{name, 2})
+			k := 2 + g.rng.Intn(2)
+			forced = append(forced, g.m(N{"k": "add", "a": N{"k": "call", "f": name, "args": []any{lit(I(k)), lit(I(0))}},
+				"b": N{"k": "call", "f": name, "args": []any{lit(I(k + 1)), lit(I(5))}}}))
+		}
+		if profile == "defs" {
+			// a function with several callers that call it straight from their bodies and from argument positions (call
+			// sites compiled when the caller is defined): (defun base (p) (+ p 3)), (defun ca (p) (base (+ p 1))),
+			// (defun cb (p) (+ (base p) (base (- p 1))))
+			g.fctr++
+			base, ca, cb := fmt.Sprintf("base%d-%d", seed, g.fctr), fmt.Sprintf("ca%d-%d", seed, g.fctr), fmt.Sprintf("cb%d-%d", seed, g.fctr)
+			p1, p2, p3 := g.fresh(), g.fresh(), g.fresh()
+			b1 := []any{g.m(N{"k": "add", "a": N{"k": "var", "n": p1}, "b": lit(I(3))})}
+			b2 := []any{N{"k": "call", "f": base, "args": []any{N{"k": "add", "a": N{"k": "var", "n": p2}, "b": lit(I(1))}}}}
+			b3 := []any{N{"k": "add", "a": N{"k": "call", "f": base, "args": []any{N{"k": "var", "n": p3}}},
+				"b": N{"k": "call", "f": base, "args": []any{N{"k": "sub", "a": N{"k": "var", "n": p3}, "b": lit(I(1))}}}}}
+			for _, d := range []struct {
+				name, p string
+				body    []any
+			}{{base, p1, b1}, {ca, p2, b2}, {cb, p3, b3}} {
+				defs = append(defs, N{"name": d.name, "ps": []any{d.p}, "body": d.body})
+				defsrc = append(defsrc, fmt.Sprintf("(defun %s (%s)%s)", d.name, d.p, rlist(d.body)))
+				g.funcs = append(g.funcs, fdef{d.name, 1})
+			}
+			forced = append(forced, g.m(N{"k": "add", "a": N{"k": "call", "f": ca, "args": []any{lit(I(g.rng.Intn(5)))}},
+				"b": N{"k": "call", "f": cb, "args": []any{lit(I(g.rng.Intn(5)))}}}))
+		}
 		if profile == "defs" {
 			// a mutually recursive pair: (defun ev (n) (if (or (< n 1) (< 6 n)) 1 (od (- n 1)))) and od likewise with 0
 			g.fctr++
@@ -759,7 +1054,8 @@ func c01Gen(args []string) {
 			defsrc = append(defsrc, fmt.Sprintf("(defun %s (%s)%s)", name, p, rlist(body)))
 			g.funcs = append(g.funcs, fdef{name, 1})
 		}
-		main := N{"k": "progn", "es": g.body(depth, nil)}
+		g.rctr = 0
+		main := N{"k": "progn", "es": append(forced, g.body(depth, nil)...)}
 		_ = enc.Encode(N{"id": t, "defs": defs, "ast": main, "defsrc": defsrc, "src": render(main)})
 	}
 }
